@@ -41,6 +41,8 @@ type Solver struct {
 	Stats     SolverStats
 	dead      bool
 	errMark   int
+	nreset    int
+	inited    bool
 }
 
 func NewSolver(kind string, timeoutMs int) (*Solver, error) {
@@ -109,6 +111,17 @@ func (s *Solver) send(str string) {
 func (s *Solver) Reset() {
 	s.em = emitter{defined: make(map[int]string, 256), sb: &strings.Builder{}}
 	s.errMark = len(s.Stats.Errors)
+	s.nreset++
+	if s.inited && s.nreset%512 != 0 && s.kind != "cvc5" {
+		s.send("(pop 1)\n(push 1)\n")
+		return
+	}
+	defer func() {
+		s.inited = true
+		if s.kind != "cvc5" {
+			s.send("(push 1)\n")
+		}
+	}()
 	if s.kind == "cvc5" {
 		s.send("(reset)\n(set-logic ALL)\n(set-option :produce-models true)\n")
 	} else {
